@@ -592,7 +592,7 @@ class C10(SeqCheck):
         return any(x.split()[1:2] == ["1"] for x in o) and any(x.split()[1:2] == ["0"] for x in o)
 
 
-class C01(SeqCheck):
+class C01(VSchedCheck):
     pid = "C01"
     diff_is_violation = True
     harness = "c01"
@@ -600,6 +600,9 @@ class C01(SeqCheck):
     test_binary = True
     model_entry = "net_model"
     oracle_entry = None
+    # the harness is built against copies of these files instrumented from the working tree (hooks off except in the
+    # controlled-scheduler tier)
+    instrument = {"vnet/router.go": "vnet", "vnet/net.go": "vnet", "vnet/conn.go": "vnet"}
     quick_n = 1200
     thorough_n = 40000
     shards = 12
@@ -624,14 +627,17 @@ class C01(SeqCheck):
                   "not cover a sender bound to 127.0.0.1 writing off-host without a NAT on the path (the code forwards such a datagram with source "
                   "127.0.0.1); minimum delay, jitter and chunk filters are absent from this model (C14-C16); atomicity of one forwarding step "
                   "(pop / translate / push are separate critical sections of one router goroutine) is argued in Vnet/Network.v and exercised by the "
-                  "concurrent tier, not proved; IPv4/UDP only")
+                  "concurrent and controlled-scheduler tiers, not proved; known finding restart-under-traffic (Stop/Start racing with forwarding reorders a "
+                  "flow: reported as KNOWN-FINDING, so a change that makes such reordering more frequent is not told apart); IPv4/UDP only")
     rule = ("sequential tier (2/3 of the shards): root router + 0-2 LAN routers nested up to depth 3, NAPT with all 9 mapping/filtering behaviours, "
             "lifetimes 5 s/30 s/2 min, 1:1 mode, 1-2 external addresses, hosts with static, automatic and two addresses; sockets wildcard / specific / "
             "loopback / ephemeral / connected; 30-100 operations: writes (payload 0-23, 200-1200 or 1500 bytes; buffer overwritten after the call) to "
             "bound sockets, NAT external addresses, replies to the last source seen, loopback, unbound ports, unroutable addresses; reads; draining "
             "every socket (so that nothing else arrived is checked); time steps 1 s-3 min; close; bind; Stop/Start; non-trivial = at least 3 "
             "datagrams read. Concurrent tier (1/3): wildcard sockets on every host, 1-2 flows per socket of 20-80 numbered datagrams to publicly "
-            "reachable or same-LAN sockets, all senders concurrently, then concurrent replies; one history per run uses up the 16384 dynamic ports of a "
+            "reachable or same-LAN sockets, all senders concurrently, then concurrent replies; controlled-scheduler tier (1/4 of the shards; router.go, net.go and conn.go instrumented from the working tree): root router, two hosts, "
+            "optionally a LAN behind a NAT, 1-3 flows of 4-7 datagrams, writers, router goroutines and (half of the histories) a Stop/Start of the "
+            "root router stepped one synchronisation operation at a time by seeded schedules; one history per run uses up the 16384 dynamic ports of a "
             "NAT and checks that the established flow still works (compared with the model in the thorough tier only); non-trivial = at least 100 datagrams; distinct = "
             "distinct (configuration, operations)")
     trusted = ["testing/synctest (quiescence after each operation, virtual clock for NAT lifetimes)"]
@@ -639,10 +645,19 @@ class C01(SeqCheck):
 
     def variants(self):
         base = ["-test.run", "^TestHarness$"]
-        return [(self.hbin, base), (self.hbin, base), (self.hbin, base + ["-mode", "conc"])]
+        return [(self.hbin, base), (self.hbin, base), (self.hbin, base + ["-mode", "conc"]), (self.hbin, base + ["-mode", "vs"])]
 
     def model_entry_for(self, conf):
         return None if conf.split()[:1] == ["9"] else self.model_entry
+
+    def classify_known_diff(self, pid, line):
+        # controlled-scheduler tier (conf 9 <seed> 2), ops [flows; datagrams; events; restarted?]: reordering (flag 8 alone) in a history
+        # in which the root router was stopped and started again while datagrams were in flight
+        c, o, ob = split3(line)
+        cf, of = c.split(), (segs(o)[0].split() if segs(o) else [])
+        if cf[:1] == ["9"] and cf[2:3] == ["2"] and len(of) >= 4 and of[3] == "1" and segs(ob)[-1].strip() == "8":
+            return "restart-under-traffic"
+        return None
 
     def gen_args(self, tier):
         self._tier = tier
